@@ -267,6 +267,9 @@ func TestC13(t *testing.T) {
 		for i := 0; i < per; i++ {
 			m := reflect.New(g.Types[r].rt).Interface().(proto.Message)
 			fl.fill(m.ProtoReflect(), 4)
+			if rng.IntN(3) == 0 {
+				e.Dist["roundtrip_json_blobs"] += jsonEncodeBlobs(m.ProtoReflect()) // history blobs in the other wire encoding
+			}
 			orig := proto.Clone(m)
 			_, err1 := fwd.TranslateRequest(m)
 			_, err2 := back.TranslateRequest(m)
@@ -277,6 +280,38 @@ func TestC13(t *testing.T) {
 			e.Evals++
 			if err1 != nil || err2 != nil || !proto.Equal(a, b) {
 				e.Violation(map[string]any{"what": fmt.Sprintf("translate then inverse-translate changed a random %s (%v %v)", g.Types[r].Go, err1, err2), "ops": []string{fmt.Sprintf("# roundtrip %d %d seed %d", r, i, e.Seed)}})
+			}
+		}
+	}
+	// (4b) history blobs in either wire encoding (PROTO3, JSON) holding mapped names: translated, still decodable under the
+	// encoding the blob is labelled with, and restored by the inverse translation
+	for _, asJSON := range []bool{false, true} {
+		for _, name := range []string{"local-ns", "a", "b", "unmapped"} {
+			blob, _ := evSerializer.SerializeEvents([]*historypb.HistoryEvent{plainPadEvent(1), {EventId: 2, EventType: enumspb.EVENT_TYPE_WORKFLOW_EXECUTION_STARTED,
+				Attributes: &historypb.HistoryEvent_WorkflowExecutionStartedEventAttributes{WorkflowExecutionStartedEventAttributes: &historypb.WorkflowExecutionStartedEventAttributes{ParentWorkflowNamespace: name, Identity: "local-ns"}}}})
+			m := proto.Message(&adminservice.GetWorkflowExecutionRawHistoryV2Response{HistoryBatches: []*commonpb.DataBlob{blob}})
+			if asJSON {
+				jsonEncodeBlobs(m.ProtoReflect())
+			}
+			orig := proto.Clone(m)
+			_, err1 := fwd.TranslateResponse(m) // the response direction of this translator is empty: nothing may change
+			same := proto.Equal(m, orig)
+			_, err2 := fwd.TranslateRequest(m)
+			mid := proto.Clone(m)
+			midOK := canonBlobs(mid.ProtoReflect())
+			ref := proto.Clone(orig)
+			refTranslate(ref.ProtoReflect(), refOpts{ns: toGoMap(m1)})
+			canonBlobs(ref.ProtoReflect())
+			_, err3 := back.TranslateRequest(m)
+			a, b := proto.Clone(m), proto.Clone(orig)
+			okA := canonBlobs(a.ProtoReflect())
+			canonBlobs(b.ProtoReflect())
+			op := fmt.Sprintf("# blobroundtrip json=%v %s", asJSON, name)
+			e.Emit(op, "#")
+			e.Evals++
+			if err1 != nil || err2 != nil || err3 != nil || !same || !midOK || !okA || !proto.Equal(mid, ref) || !proto.Equal(a, b) {
+				e.Violation(map[string]any{"what": fmt.Sprintf("history blob (JSON-encoded: %v) holding namespace %q: untouched by the empty direction=%v, translated blob decodes=%v and equals the reference=%v, round trip decodes=%v and restores the original=%v (%v %v %v)",
+					asJSON, name, same, midOK, proto.Equal(mid, ref), okA, proto.Equal(a, b), err1, err2, err3), "ops": []string{op}})
 			}
 		}
 	}
